@@ -650,6 +650,20 @@ CliRecClause(ev) ==
 
 \* C07: truncated forms (parser with allow_truncated): the fields spelled are reported as the truncated properties,
 \* the zone is unknown unless given, dump_as_parsed reproduces the input
+\* beyond the listed properties: the derived read-only properties of a TimePoint that the dumpers use
+PropsClause(ev) ==
+  LET p == ev.p  ay == Abs(p.y) IN
+  IF ~ev.ok THEN "ext:raised-" \o ev.cls
+  ELSE IF ev.cen # (ay % 10000) \div 100 THEN "ext:century"
+  ELSE IF ev.yoc # ay % 100 THEN "ext:year_of_century"
+  ELSE IF ev.yod # ay % 10 THEN "ext:year_of_decade"
+  ELSE IF ev.doc # (ay % 100) \div 10 THEN "ext:decade_of_century"
+  ELSE IF ev.ysign # (IF p.y >= 0 THEN 43 ELSE 45) THEN "ext:year_sign"
+  ELSE IF ev.zsign # (IF p.zh < 0 \/ p.zm < 0 THEN 45 ELSE 43) THEN "ext:time_zone_sign"
+  ELSE IF <<ev.zha, ev.zma>> # <<Abs(p.zh), Abs(p.zm)>> THEN "ext:time_zone_abs"
+  ELSE IF ~p.frac /\ ev.sod # p.sod THEN "ext:get_second_of_day"
+  ELSE "ok"
+
 \* beyond the listed properties: the names a truncated point reports for its largest given and smallest missing unit
 LargestProp(e) ==
   IF e.yc >= 0 THEN "year_of_century" ELSE IF e.yd >= 0 THEN "year_of_decade" ELSE IF e.mo >= 0 THEN "month_of_year"
@@ -750,6 +764,7 @@ Clause(ev) ==
     [] ev.op = "ParseTrunc" -> ParseTruncClause(ev)
     [] ev.op = "DurOp1"   -> DurOp1Clause(ev)
     [] ev.op = "DurExt"   -> DurExtClause(ev)
+    [] ev.op = "Props"    -> PropsClause(ev)
     [] ev.op = "Cmp1"     -> Cmp1Clause(mode, ev)
     [] ev.op = "SuiteEnd" -> "ok"
     [] ev.op = "Raised"   -> "raised-" \o ev.cls
